@@ -1,5 +1,6 @@
 //! vx-netk: engine E — turmoil-net kernel through the public shim, harness is the wire.
 
+mod backlog;
 mod life;
 mod rules;
 mod sock;
@@ -464,6 +465,19 @@ fn main() {
                 rep.violations.extend(st.violations);
                 rep.add_part(st.part);
             }
+            // backlog clause: simultaneous connects against a listener that accepts on demand
+            for (name, backlog, connects, accepts, depth) in [("backlog2-three-connects", 2usize, 3usize, 1usize, tier.pick(14usize, 18)), ("backlog1-two-connects", 1, 2, 1, tier.pick(14, 18)), ("backlog3-four-connects", 3, 4, 0, tier.pick(12, 16))] {
+                let c = backlog::BkCfg { name: name.into(), backlog, connects, accepts, d: 1, w: 3, max_depth: depth };
+                let mut b = BfsConfig::new(&c.name);
+                b.scenario = c.describe();
+                b.bounds = c.describe();
+                b.wall = wall;
+                b.max_states = cap;
+                b.max_depth = c.max_depth;
+                let st = explore_bfs::<backlog::BacklogSys>(&b, &c);
+                rep.violations.extend(st.violations);
+                rep.add_part(st.part);
+            }
             all_feats.sort();
             all_feats.dedup();
             let need = ["SynSent", "SynReceived", "Established", "FinWait1", "FinWait2", "CloseWait", "LastAck", "Closing"];
@@ -541,6 +555,36 @@ fn replay(path: &str) {
             all.extend(c16_configs(Tier::Quick));
         }
         _ => {}
+    }
+    if prop == "C13" && name.starts_with("backlog") {
+        let num = |k: &str| -> usize { scenario.split_whitespace().find_map(|t| t.strip_prefix(k).and_then(|x| x.parse().ok())).unwrap_or(1) };
+        let cfg = backlog::BkCfg { name: name.clone(), backlog: num("backlog="), connects: num("simultaneous_connects="), accepts: num("accepts_allowed="), d: num("d=") as u32, w: num("W="), max_depth: num("depth=") };
+        println!("replaying {prop} {}", cfg.describe());
+        let mut s = backlog::BacklogSys::init(&cfg);
+        for (i, &a) in choices.iter().enumerate() {
+            let a = a as u16;
+            println!("--- step {i}: {}", s.describe(a));
+            match vx_core::catch(|| s.apply(a)) {
+                Ok(Ok(())) => {}
+                Ok(Err(v)) => {
+                    println!("VIOLATION clause={} : {}", v.clause, v.detail);
+                    std::process::exit(1);
+                }
+                Err(p) => {
+                    println!("PANIC {p}");
+                    std::process::exit(1);
+                }
+            }
+        }
+        println!("--- fair suffix");
+        match s.finish().1 {
+            Some(v) => {
+                println!("VIOLATION clause={} : {}", v.clause, v.detail);
+                std::process::exit(1);
+            }
+            None => println!("no violation on this history"),
+        }
+        return;
     }
     if prop == "C13" {
         let mut cs = c13_configs(Tier::Thorough);
